@@ -13,6 +13,7 @@ env.pop("GOTOOLCHAIN", None); env.pop("GOSUMDB", None)
 def sh(cmd, cwd=None, timeout=3000):
     r = subprocess.run(cmd, cwd=cwd, env=env, shell=isinstance(cmd, str), stdout=subprocess.PIPE, stderr=subprocess.STDOUT, text=True, timeout=timeout)
     return r.returncode, r.stdout
+RECHECK = os.environ.get("RESEED_RECHECK") == "1"   # skip the confirmation (kept from the last full run): apply, run the checks, undo
 ids = sys.argv[1:] or sorted(os.listdir(ROOT))
 head = subprocess.run("git -C %s rev-parse --short HEAD" % REPO, shell=True, stdout=subprocess.PIPE, text=True).stdout.strip()
 assert subprocess.run("git -C %s status --porcelain" % REPO, shell=True, stdout=subprocess.PIPE, text=True).stdout.strip() == "", "/repo is not clean"
@@ -22,6 +23,38 @@ for sid in ids:
     patch = os.path.join(d, "patch.diff")
     demo = os.path.join(d, "demo_test.go")
     ddir = open(os.path.join(d, "demo.dir")).read().strip() if os.path.exists(os.path.join(d, "demo.dir")) else "."
+    if RECHECK:
+        res = meta.get("confirmed") or {}
+        ok = all(res.get(k) for k in ("demo_passes_without_change", "applies_to_repo_head", "demo_fails_with_change", "existing_suite_passes_with_change_all_six_modules"))
+        if not ok or meta.get("superseded_by"):
+            print(sid, "skipped (not a confirmed change)", flush=True); continue
+        rc, o = sh(["git", "-C", REPO, "apply", "--check", patch])
+        if rc != 0:
+            meta["recheck_note"] = "does not apply to %s any more (confirmed at %s)" % (head, meta.get("confirmed_at_repo_head"))
+            json.dump(meta, open(os.path.join(d, "meta.json"), "w"), indent=1)
+            print(sid, "does not apply any more", flush=True); continue
+        rc, o = sh(["git", "-C", REPO, "apply", patch])
+        try:
+            runs = {}
+            primary = meta["breaks_property"]
+            props = [primary] + [p for p in (list(meta.get("checks_run", {}).keys())) if p != primary]
+            for p in props:
+                if p != primary and runs.get(primary, {}).get("exit") == 1 and runs[primary]["violation_lines"] > 0:
+                    break
+                rc, o = sh([VERIF + "/check", p], cwd=VERIF)
+                lines = [l for l in o.split("\n") if l.startswith("VIOLATION")]
+                more = re.search(r"\((\d+) further violations", o)
+                runs[p] = {"exit": rc, "violation_lines": len(lines) + (int(more.group(1)) if more else 0),
+                           "with_failing_input": len([l for l in lines if "no-failing-input-found" not in l])}
+            meta["checks_run"] = runs
+            meta["caught_by"] = sorted(p for p, v in runs.items() if v["exit"] != 0 and v["violation_lines"] > 0)
+            meta["rechecked_at_repo_head"] = head
+            meta.pop("recheck_note", None)
+        finally:
+            sh("git -C %s checkout -- ." % REPO)
+        json.dump(meta, open(os.path.join(d, "meta.json"), "w"), indent=1)
+        print(sid, "recheck: caught by", meta.get("caught_by"), flush=True)
+        continue
     wt = "/tmp/reseed_wt"
     sh("git -C %s worktree remove --force %s" % (REPO, wt))
     rc, o = sh("git -C %s worktree add -q --detach %s HEAD" % (REPO, wt))
